@@ -1221,6 +1221,13 @@ fn run_zip_case(ctx: &mut Ctx, lm: &mut ZipLm, case: &ZipCase) {
         for (i, v) in vols.iter().enumerate() {
             std::fs::write(archd.join(format!("a{n}.zip.{:03}", i + 1)), v).unwrap();
         }
+        // neighbours in the same directory that are parts of *other* archives (names that share a beginning or an
+        // end with this archive's parts): they must not become volumes of this archive
+        let foreign = write_zip(&[("foreign.dlt".to_string(), b"FOREIGN".to_vec())]);
+        for name in [format!("a{n}.zip.bak.zip.001"), format!("a{n}x.zip.001"), format!("xa{n}.zip.001"), format!("a{n}.zip.001.zip.002")] {
+            std::fs::write(archd.join(name), &foreign).unwrap();
+        }
+        lm.hit("zip:multi_volume_with_foreign_neighbours");
         lm.hit("zip:multi_volume_archive");
         if vols.iter().any(|v| v.is_empty()) {
             lm.hit("zip:multi_volume_with_empty_volume");
@@ -1407,7 +1414,7 @@ impl Prop for C20Prop {
         Meta {
             id: "C20",
             level: "model_checking",
-            rule: "(A) stateless exhaustive exploration of read/seek operation sequences on adlt::utils::seekablechain::SeekableChain against std::io::Cursor over the concatenated volumes: every split of the byte string 1..=L into <= 3 volumes (empty ones included) x every operation sequence up to the depth given per family over read(0|1|2|all), Start(0..=L+1), Current(-2..=2), End(-(L+1)..=1); sequences on which the reference itself errors (seek before 0) are counted and excluded. Reads are compared by a read-until-n-or-zero loop (short reads are fine, a zero return while data remains is a premature EOF), seeks by the returned position, plus the final stream_position. Volumes: in-memory cursors, cursors delivering 1 byte per read, real files. (B) zip archives written by the harness byte by byte (stored entries, own central directory): all subsets (bounded size) of a member alphabet with ordinary, nested, parent-escaping, absolute, aliasing, duplicate, empty, directory and > 64 KiB members x glob patterns x with/without foreign files pre-existing where the escaping names point x extract_archives (single file, multi-volume at every cut, twice into the same temp dir) and extract_to_dir (all / name filter, through an instrumented source that counts reads served at a stale cached position of CloneableSeekableReader). Oracle: the sandbox tree outside the designated directory is unchanged; every reported path resolves inside it and holds the bytes of a member normalising to that path; reported set = files in the directory = non-directory members matching the pattern (glob crate semantics or literal equality) whose lexically normalised name stays inside.".into(),
+            rule: "(A) stateless exhaustive exploration of read/seek operation sequences on adlt::utils::seekablechain::SeekableChain against std::io::Cursor over the concatenated volumes: every split of the byte string 1..=L into <= 3 volumes (empty ones included) x every operation sequence up to the depth given per family over read(0|1|2|all), Start(0..=L+1), Current(-2..=2), End(-(L+1)..=1); sequences on which the reference itself errors (seek before 0) are counted and excluded. Reads are compared by a read-until-n-or-zero loop (short reads are fine, a zero return while data remains is a premature EOF), seeks by the returned position, plus the final stream_position. Volumes: in-memory cursors, cursors delivering 1 byte per read, real files. (B) zip archives written by the harness byte by byte (stored entries, own central directory): all subsets (bounded size) of a member alphabet with ordinary, nested, parent-escaping, absolute, aliasing, duplicate, empty, directory and > 64 KiB members x glob patterns x with/without foreign files pre-existing where the escaping names point x extract_archives (single file, multi-volume at every cut with parts of other archives whose names share a beginning or an end lying next to the volumes, twice into the same temp dir) and extract_to_dir (all / name filter, through an instrumented source that counts reads served at a stale cached position of CloneableSeekableReader). Oracle: the sandbox tree outside the designated directory is unchanged; every reported path resolves inside it and holds the bytes of a member normalising to that path; reported set = files in the directory = non-directory members matching the pattern (glob crate semantics or literal equality) whose lexically normalised name stays inside.".into(),
             assumptions: vec![
                 "reference for the chain = std::io::Cursor over the concatenation; stream length <= 6, <= 3 volumes, depths as listed in coverage.families".into(),
                 "'matches the requested pattern' = glob::Pattern::matches with default options or literal equality with the pattern text (the rule documented at archive_get_path_and_glob); the matcher itself is not under test".into(),
@@ -1437,6 +1444,7 @@ impl Prop for C20Prop {
                 "zip:duplicate_or_alias_member_reported",
                 "zip:member_larger_than_copy_buffer_extracted",
                 "zip:multi_volume_archive",
+                "zip:multi_volume_with_foreign_neighbours",
                 "zip:multi_volume_with_empty_volume",
                 "zip:temp_dir_reused_by_second_call",
                 "zip:source_read_without_seek",
